@@ -11,6 +11,14 @@ PROP = dict(
         dict(module="MCRoundTrip", cfg="MCRoundTrip_mut_plusinpath.cfg", expect_violation="ValuesAgree", timeout=300),
         dict(module="MCRoundTrip", cfg="MCRoundTrip_mut_queryaspath.cfg", expect_violation="ValuesAgree", timeout=300),
         dict(module="MCRoundTrip", cfg="MCRoundTrip_mut_noclean-exclusion.cfg", expect_violation="RoutingAgrees", timeout=300),
+        # history on one server / one upload source: sessions of calls (sibling templates whose decoded paths collide, parameter-free
+        # operations called with each of their media types), sources handed over at an offset; the model's memory stays empty
+        dict(module="MCRoundTripSession", cfg=dict(quick="MCRoundTripSession_quick.cfg", thorough="MCRoundTripSession_thorough.cfg"),
+             timeout=dict(quick=600, thorough=3000)),
+        # non-vacuity: implementations that remember something (or rewind the source) must violate
+        dict(module="MCRoundTripSession", cfg="MCRoundTripSession_mut_rewind.cfg", expect_violation="UploadAgreesMC", timeout=300),
+        dict(module="MCRoundTripSession", cfg="MCRoundTripSession_mut_staticmemo.cfg", expect_violation="SessionAgrees", timeout=300),
+        dict(module="MCRoundTripSession", cfg="MCRoundTripSession_mut_decodedkeycache.cfg", expect_violation="SessionAgrees", timeout=300),
     ],
     level_text="RoundTrip carries compact encode / transport / decode tables per parameter location (path: PathEscape -> EscapedPath, "
                "path.Clean, segment match, PathUnescape; query and urlencoded form: QueryEscape -> ParseQuery; header: verbatim -> OWS "
@@ -19,22 +27,35 @@ PROP = dict(
                "tables are inverse for every value of <=3 (thorough <=4) atoms over 17 byte classes incl. / % + space ? # : * { } ; & = . "
                "non-ASCII TAB, every template x placeholder values, every status x header value; and validates every exchange of the real "
                "client.Runtime with an httptest.Server running middleware.Serve on generated API descriptions against the property "
-               "(supplied vs received per parameter, returned vs seen).",
+               "(supplied vs received per parameter, returned vs seen). History is a first-class dimension: one server (route lookup, "
+               "consumer selection, binding modelled as a state machine whose memory must stay empty) serves sessions of calls - sibling "
+               "templates whose request paths coincide once decoded, parameter-free operations called with each media type they consume "
+               "(string bodies as JSON or text) - and every call of every session must arrive as supplied and be answered as by a fresh "
+               "server; upload sources are [content, offset, seekable, typed] and supply what remains to be read. The driver runs such "
+               "sessions through one client.Runtime against one server built for the case, one validated event per call.",
     level_note="bounded exhaustive at model level; real code bound by trace validation of the executed exchanges only; JSON values are "
                "compared by canonical re-encoding, file and body contents by SHA-256 (harness abstraction functions)",
     design_ref="DESIGN.md 4.4",
     driver="c04",
     trace=dict(module="TraceRoundTrip", cfg="TraceRoundTrip.cfg"),
-    rule="case = generated API (6 operations GET/PUT/POST/DELETE/PATCH over templates with 1-3 placeholders, or a root-level /{a}/{b} API; "
-         "base paths /, /api, /api/v1; consumes json / urlencoded / multipart; produces json / text / bytes; secured or not) + one call "
-         "with a value for every parameter (path, query scalar/integer/boolean/multi, header, form fields, files, JSON body) + the "
+    rule="case = generated API + a session of 1..7 calls through one Runtime to one server (single calls: long-lived shared server; "
+         "sessions: a server built for the case). Items API (6 operations GET/PUT/POST/DELETE/PATCH over templates with 1-3 placeholders) "
+         "or a root-level /{a}/{b} API; base paths /, /api, /api/v1; consumes json / urlencoded / multipart; produces json / text / bytes; "
+         "secured or not; each call with a value for every parameter (path, query scalar/integer/boolean/multi, header, form fields, files, JSON body) + the "
          "response to return (Responder with status, header fields, body, or plain data); exhaustive part: every string parameter of "
          "every operation x every value of <=2 atoms over 17 byte classes; a 43-value hostile list in all locations at once x auth "
          "writers (api key, body-reading signing writer); every status x body size; seeded part: random values, JSON bodies, files up "
-         "to 200 kB. Non-trivial: the exchange completed with at least one supplied parameter; distinct by hash of the case.",
+         "to 200 kB. "
+         "Files API: GET /files/{name}, /files/{dir}/{name}, /files/{dir}/{sub}/{name}; POST and PUT /notes consuming json+text "
+         "(string body); POST /forms consuming urlencoded+multipart; POST /uploads. Exhaustive: upload sources reader / in-memory seekable / "
+         "*os.File / typed x 11 sizes around the 512-byte sniffing window x offsets {0,1,n/2,n-1,n,512,513}; every media-type sequence "
+         "of length 2-3 per parameter-free operation; every ordered pair of calls from a pool of 26 (thorough 36) with colliding decoded "
+         "paths; seeded sessions (quick 400, thorough 8000) incl. Runtime.Debug on. Non-trivial: an exchange completed with at least "
+         "one supplied parameter; distinct by hash of the case.",
     assumptions=COMMON_ASSUME + [
         "no two operations of an API differ only by a literal segment that a supplied path value could equal (literal routes win by design)",
-        "integers and booleans are supplied in their canonical text; body parameters are JSON objects or arrays (the untyped binder offers nothing else); array parameters use collectionFormat multi",
+        "integers and booleans are supplied in their canonical text; body parameters are JSON objects or arrays, or strings (valid UTF-8) sent as JSON or as non-empty text/plain (text consumer adapted to the untyped binder's interface{} target); array parameters use collectionFormat multi",
+        "an upload source supplies what remains to be read from its current position; sibling path templates differ in their number of segments",
         "handlers return final, non-redirect statuses (the client's http.Client follows 3xx); 204/304 carry no body; response header values are transportable",
     ],
 )
